@@ -5,7 +5,17 @@ import runner
 from props.parts import cratesv2 as cv
 
 LEAN_MODULES = ["Properties.C08V2"]
-THEOREMS = ["EngineModel.Properties.C08." + t for t in []]
+THEOREMS = ["EngineModel.Properties.C08V2." + t for t in [
+    "C08V2_step_refines",
+    "C08V2_refines",
+    "C08V2_invariant",
+    "C08V2_tracks_agree",
+    "C08V2_frame",
+    "C08V2_frame_add_remove",
+    "C08V2_add_present_noop",
+    "C08V2_remove_absent_noop",
+    "C08V2_removal_erases",
+]]
 ASSUMPTIONS = [
     "2.x: create_track is modelled as allocation of the next AUTOINCREMENT track id (the tie creates tracks from a minimal "
     "valid snapshot); databaseUuid of every PlaylistEntity row is the library's own and membershipReference is 0 (checked on "
